@@ -2,7 +2,7 @@
 # usage: tools/seedmatrix_wt.sh [seed...]  -- runs every stored seed against the quick check of its property (scratch worktrees)
 # and, where that does not raise a violation, against the checks named in ALT; writes detected_by into meta.json
 cd /verif || exit 2
-declare -A ALT=( [C01-b]="C06" [C04-g]="C06" [C17-g]="C16" [C09-e]="C08" [C02-e]="C13 C14" [C16-e]="C16" [C01-d]="C02" [C03-a]="C06" [C05-a]="C13" [C02-c]="C13" [C13-b]="C14" [C17-d]="C06 C05" [C14-d]="C16 C13" [C17-h]="C09" [C11-h]="C09" [C06-h]="C02" [C03-h]="C04" [C14-h]="C02" [C05-h]="C01" [C13-h]="C14" [C03-i]="C04" [C13-i]="C09 C11" [C18-i]="C08" [C20-i]="C06" [C01-j]="C13" [C04-j]="C13" [C09-j]="C02" [C17-j]="C13" [C02-k]="C04" [C03-k]="C01 C05" [C15-k]="C04" [C18-k]="C09" )
+declare -A ALT=( [C01-b]="C06" [C04-g]="C06" [C17-g]="C16" [C09-e]="C08" [C02-e]="C13 C14" [C16-e]="C16" [C01-d]="C02" [C03-a]="C06" [C05-a]="C13" [C02-c]="C13" [C13-b]="C14" [C17-d]="C06 C05" [C14-d]="C16 C13" [C17-h]="C09" [C11-h]="C09" [C06-h]="C02" [C03-h]="C04" [C14-h]="C02" [C05-h]="C01" [C13-h]="C14" [C03-i]="C04" [C13-i]="C09 C11" [C18-i]="C08" [C20-i]="C06" [C01-j]="C13" [C04-j]="C13" [C09-j]="C02" [C17-j]="C13" [C02-k]="C04" [C03-k]="C01 C05" [C15-k]="C04" [C18-k]="C09" [C11-k]="C12" [C17-k]="C09" )
 SEEDS=${@:-$(ls seeded)}
 for s in $SEEDS; do
   prop=$(python3 -c "import json;print(json.load(open('seeded/$s/meta.json'))['property'])")
